@@ -341,4 +341,18 @@ MUTANTS = [
     M("K1-static-slot", ["C01", "C07"], (DP, "pub static AS_RAINBOW: [u16; 49205] = [\n    11, 23, 11, 167,", "pub static AS_RAINBOW: [u16; 49205] = [\n    11, 23, 11, 168,"), base="K1-clippy-autofix"),
     M("K1-static-atomic-table", ["C15"], (FE, "        let mut player_card_pairs = vec![];", "        static DEALS: std::sync::atomic::AtomicUsize = std::sync::atomic::AtomicUsize::new(0);\n        if DEALS.fetch_add(1, std::sync::atomic::Ordering::Relaxed) == usize::MAX { self.current_used_cards.clear(); }\n        let mut player_card_pairs = vec![];"), base="K1-clippy-autofix"),
     M("K2-partial-cmp-reversed", ["C01"], (MH, "        Some(self.cmp(other))", "        Some(other.cmp(self))"), base="K2-clippy-manual"),
+    M("benign-B6-2-pipeline", ["C05", "C06", "C17"], base="B6-2", benign=True),
+    M("B6-2-skip", ["C05"], (HRS, "            .split(',')\n            .filter_map(", "            .split(',')\n            .skip(1)\n            .filter_map("), base="B6-2"),
+    M("B6-2-rev", ["C05"], (HRS, "            .split(',')\n            .filter_map(", "            .rsplit(',')\n            .filter_map("), base="B6-2"),
+    M("B6-2-other-text", ["C05"], (HRS, ".filter_map(|haystack| HandRangeToken::from_str(haystack).ok());", ".filter_map(|haystack| HandRangeToken::from_str(haystack.trim_end_matches('+')).ok());"), base="B6-2"),
+    M("B6-2-take", ["C05"], (HRS, "for (card_pair, prob) in tokens.flatten() {", "for (card_pair, prob) in tokens.flatten().take(100) {"), base="B6-2"),
+    M("benign-B7-3-pad-and-then", ["C05", "C06", "C09", "C13", "C17"], base="B7-3", benign=True),
+    M("B7-3-last-char", ["C13"], (RK, "value.chars().next().ok_or(()).and_then(Rank::try_from)", "value.chars().last().ok_or(()).and_then(Rank::try_from)"), base="B7-3"),
+    M("B7-3-second-char", ["C13"], (ST, "value.chars().next().ok_or(()).and_then(Suit::try_from)", "value.chars().nth(1).ok_or(()).and_then(Suit::try_from)"), base="B7-3"),
+    M("B7-3-display-const", ["C06"], (RK, "f.pad(c.encode_utf8(&mut [0u8; 4]))", "f.pad('A'.encode_utf8(&mut [0u8; 4]))"), base="B7-3"),
+    M("B7-3-display-lower", ["C06"], (ST, "f.pad(c.encode_utf8(&mut [0u8; 4]))", "f.pad(c.to_ascii_uppercase().encode_utf8(&mut [0u8; 4]))"), base="B7-3"),
+    M("benign-B8-2a-minmax", ["C05", "C14"], base="B8-2a", benign=True),
+    M("B8-2a-maxmin", ["C14", "C05"], (CP, "CardPair(left.min(right), left.max(right))", "CardPair(left.max(right), left.min(right))"), base="B8-2a"),
+    M("B8-2a-minmin", ["C14"], (CP, "CardPair(left.min(right), left.max(right))", "CardPair(left.min(right), left.min(right))"), base="B8-2a"),
+    M("B8-2a-raw", ["C14"], (CP, "CardPair(left.min(right), left.max(right))", "CardPair(left, right)"), base="B8-2a"),
 ]
